@@ -11,7 +11,7 @@
    port p until c's own remove step nothing else touches port p); it constrains nothing about
    steps on different ports, requests or closes.  [removes_ok h] is the hypothesis that no map
    delete fails (the code only logs such a failure). *)
-From GPA Require Import Accept AcceptProofs Server ServerProofs.
+From GPA Require Import Accept AcceptProofs AcceptAddr AcceptAddrProofs Server ServerProofs.
 
 Section C07.
 Context {R Q : Type}.
@@ -200,6 +200,77 @@ Theorem C07_unattributed_is_refused_421 : forall (os : os_view) (e : env) (r : r
   writes_upstream (snd (handle e (server_ctx os None) r)) = false.
 Proof. exact unattributed_is_421. Qed.
 Print Assumptions C07_unattributed_is_refused_421.
+
+(* ---------------------------------------------------------------------------------------------- *)
+(* Full source addresses (Model/AcceptAddr.v): connections from ANY local addresses                 *)
+(* ---------------------------------------------------------------------------------------------- *)
+(* WHAT THE KEY IS.  Kernel side (linux-ebpf/socket.h sock_addr_audit_key {protocol, source_port}, written by
+   update_audit_map_entry_sk(skc.skc_num, ..)) and Rust side (sock_addr_audit_key::from_source_port(client_addr.port()))
+   key the audit map by (TCP, SOURCE PORT): the client's local ip is not part of the key, so two clients that differ only
+   in their local address share a slot. *)
+Theorem C07_key_is_the_source_port_only : forall ip1 ip2 p : N,
+  kernel_key (ip1, p) = rust_key (ip2, p).
+Proof. exact key_is_port_only. Qed.
+Print Assumptions C07_key_is_the_source_port_only.
+
+(* consumed, for a client at any address, whatever is scheduled between its two accept steps *)
+Theorem C07_consumed_any_address :
+  forall (R Q : Type) (s : state R) (c : N) (a : addr) (h : list (aop R Q)),
+  conn_of s c = None -> no_write_on_port (snd a) h = true -> aremoves_ok h = true ->
+  alookup N.eqb (snd a) (audit (afinal s (ALookup c a :: h ++ [ARemove c true]))) = None.
+Proof. exact (fun R Q => @a_consumed R Q). Qed.
+Print Assumptions C07_consumed_any_address.
+
+(* the source port reused from ANY local ip ip' (the same or another one) without a fresh kernel write: unattributed *)
+Theorem C07_reuse_unattributed_any_address :
+  forall (R Q : Type) (s : state R) (c : N) (a : addr) (h1 h2 : list (aop R Q)) (c' ip' : N),
+  conn_of s c = None -> conn_of s c' = None -> c' <> c ->
+  no_write_on_port (snd a) (h1 ++ h2) = true -> aremoves_ok (h1 ++ h2) = true ->
+  no_accept_of c' (h1 ++ h2) = true ->
+  ctx_in (afinal s ((ALookup c a :: h1 ++ [ARemove c true]) ++ h2 ++ [ALookup c' (ip', snd a)])) c' = Some None.
+Proof. exact (fun R Q => @a_reuse_unattributed R Q). Qed.
+Print Assumptions C07_reuse_unattributed_any_address.
+
+(* own record, for histories of connections from any local addresses, under every schedule that is exclusive PER PORT *)
+Theorem C07_ctx_only_own_record_any_address :
+  forall (R Q : Type) (h : list (aop R Q)) (c : N) (cs : cstate R) (e : R),
+  aexclusive h = true -> aremoves_ok h = true ->
+  conn_of (afinal init h) c = Some cs -> cs_ctx cs = Some e ->
+  exists a, In (AKRecord c a e) h /\ snd a = cs_port cs.
+Proof. exact (fun R Q => @a_ctx_only_own_record R Q). Qed.
+Print Assumptions C07_ctx_only_own_record_any_address.
+
+Theorem C07_ctx_is_own_record_any_address :
+  forall (R Q : Type) (h : list (aop R Q)) (c : N) (a : addr) (e : R),
+  aexclusive h = true -> aremoves_ok h = true ->
+  In (AKRecord c a e) h -> In (ALookup c a) h ->
+  ctx_in (afinal init h) c = Some (Some e).
+Proof. exact (fun R Q => @a_ctx_is_own_record R Q). Qed.
+Print Assumptions C07_ctx_is_own_record_any_address.
+
+Theorem C07_ctx_none_without_record_any_address :
+  forall (R Q : Type) (h : list (aop R Q)) (c : N) (a : addr),
+  aexclusive h = true -> aremoves_ok h = true ->
+  In (ALookup c a) h -> (forall a' e, snd a' = snd a -> ~ In (AKRecord c a' e) h) ->
+  ctx_in (afinal init h) c = Some None.
+Proof. exact (fun R Q => @a_ctx_none_without_record R Q). Qed.
+Print Assumptions C07_ctx_none_without_record_any_address.
+
+(* exclusivity of full ADDRESSES (what TCP's 4-tuple uniqueness gives when clients bind different local addresses) is
+   not enough: two connections with different addresses 127.0.0.1:5000 and 127.0.0.2:5000, the second accepted inside
+   the first one's lookup/remove window, and the second gets the first one's record *)
+Theorem C07_address_exclusivity_is_not_enough :
+  exists h : list (aop N N),
+    (2130706433, 5000) <> (2130706434, 5000) /\ aexclusive h = false /\ aremoves_ok h = true /\
+    ctx_in (afinal init h) 2 = Some (Some w_e1) /\ forall a e, ~ In (AKRecord 2 a e) h.
+Proof.
+  exists [AKRecord 1 (2130706433, 5000) w_e1; ALookup 1 (2130706433, 5000); ALookup 2 (2130706434, 5000);
+          ARemove 1 true; ARemove 2 true].
+  split; [discriminate|]. split; [vm_compute; reflexivity|]. split; [vm_compute; reflexivity|].
+  split; [vm_compute; reflexivity|].
+  intros a e H. cbn in H. repeat (destruct H as [H|H]; [discriminate|]). exact H.
+Qed.
+Print Assumptions C07_address_exclusivity_is_not_enough.
 
 (* ---------------------------------------------------------------------------------------------- *)
 (* Non-vacuity                                                                                      *)
